@@ -51,6 +51,11 @@ RULE = ("random square count matrices, 2..6 states (mle 2..5), entries 0..5 with
         "normalize/eq_probs: populations compared with the exactly computed stationary distribution (stationary-vector: "
         "5e-3 there -- LAPACK's forward error is eps/gap, <= 4e-5 observed --, 1e-8 for every other strongly connected "
         "normalize case), Coq compares counts and probabilities of these; "
+        "(e) counts held in a narrow integer dtype (int8, uint8, int16, uint16, int32, uint32; 2-4 states, strongly "
+        "connected): every entry of C and of C + C^T fits the dtype while row totals of C + C^T (for normalize / mle also "
+        "of C) and the grand total do not; every dtype x {transpose (first one: populations on, no prior), transpose, "
+        "normalize, mle (8/16-bit)}; dense input, its F-ordered / read-only / strided-view forms and all 9 sparse containers "
+        "of that same dtype, each judged against the exact rational model (and in Coq like every other case); "
         "plus small scope: all 2x2 count matrices over {0,1,2} (thorough: all; and a third of the 3x3 0/1 matrices); "
         "non-trivial := accepted, >= 3 states, counts not symmetric and with at least one zero entry")
 TRUSTED = ["translator/tr_builders.py (statement-by-statement translation of _apply_prior_counts, _row_normalize, "
@@ -259,6 +264,34 @@ def _gen_valid(rng, tier, builder=None, pk=None, cls=None, raw=None, layouts=Non
     return c
 
 
+NARROW = {"int8": 2 ** 7 - 1, "uint8": 2 ** 8 - 1, "int16": 2 ** 15 - 1, "uint16": 2 ** 16 - 1, "int32": 2 ** 31 - 1,
+          "uint32": 2 ** 32 - 1}
+
+
+def _gen_narrow(rng, tier, dt, builder, plain=False):
+    """Counts held in a narrow integer dtype (as they are kept on disk): every entry of C, of C + prior and of C + C^T
+    fits the dtype, but row totals of C and of C + C^T (and the grand total) do not."""
+    top = NARROW[dt]
+    s = top // 10
+    while True:
+        n = rng.randint(2, 4)
+        base = _sc_matrix(rng, n, rng.choice([0.6, 0.9, 1.0]))
+        M = [[(x * s - rng.randint(0, min(3, s - 1)) if x else 0) for x in r] for r in base]
+        if rng.random() < 0.3:
+            i = rng.randrange(n)
+            M[i][i] = top // 2                              # 2 C[i][i] is the largest value the dtype holds (or one less)
+        if any(M[i][j] + M[j][i] > top for i in range(n) for j in range(n)):
+            continue
+        sym_tot = [sum(M[i][j] + M[j][i] for j in range(n)) for i in range(n)]
+        if max(sym_tot) > top and (builder == "transpose" or max(sum(r) for r in M) > top):
+            break
+    C = [[str(x) for x in r] for r in M]
+    pk = "none" if plain else rng.choice(["none", "none", "none", "scalar"])
+    prior = None if pk == "none" else {"scalar": str(rng.choice([Fraction(1, 2), Fraction(1), Fraction(1, 4)])), "float": True}
+    return {"builder": builder, "C": C, "prior": prior, "eq": plain or rng.random() < 0.9, "cls": "sc",
+            "kind": rng.choice(SPARSE), "expect_err": False, "cdt": dt, "layouts": rng.random() < 0.4}
+
+
 def _rownorm_exact(M):
     return [[(x / sum(r) if sum(r) else Fraction(0)) for x in r] for r in M]
 
@@ -404,6 +437,11 @@ def generate(rng, tier):
             cases.append(_gen_valid(rng, tier, builder=b, pk="none", cls="oneway", raw=False))
     # (d) nearly symmetric metastable chains through eq_probs
     cases += [_gen_nearsym(rng, tier) for _ in range(24 * reps)]
+    # (e) counts held in narrow integer dtypes whose range the row totals leave (dense and every sparse container)
+    for _ in range(reps):
+        for dt in NARROW:
+            for k, b in enumerate(("transpose", "transpose", "normalize") + (("mle",) if NARROW[dt] < 2 ** 16 else ())):
+                cases.append(_gen_narrow(rng, tier, dt, b, plain=(k == 0)))
     # the >= 1000-state sparse branch of eq_probs goes through ARPACK instead of LAPACK: one (two) big chains
     for _ in range(1 if tier == "quick" else 2):
         cases.append({"kind": "big", "n": rng.choice([1000, 1003]), "seed": rng.randrange(10 ** 6),
@@ -609,6 +647,10 @@ def run_impl(c):
     if c.get("kind") == "big":
         return _run_big(c)
     A = _np_matrix(c["C"])
+    if c.get("cdt"):
+        if A.dtype.kind != "i" or np.any(A.astype(c["cdt"]).astype(np.int64) != A):
+            return {"err": "harness", "msg": "counts do not fit %s" % c["cdt"]}
+        A = A.astype(c["cdt"])
     res = {"by_kind": {}}
     kinds = list(KINDS)
     if c.get("layouts"):
@@ -944,6 +986,16 @@ def tags(c, r):
                 t.append("mle-no-prior-lower-oneway>=2")
     if c.get("layouts"):
         t.append("dense-layouts(F,readonly,strided-view)")
+    if c.get("cdt"):
+        t += ["counts-dtype:" + c["cdt"], "narrow-counts:" + c["builder"]]
+        M = [[int(_F(x)) for x in row] for row in c["C"]]
+        n = len(M)
+        if max(sum(M[i][j] + M[j][i] for j in range(n)) for i in range(n)) > NARROW[c["cdt"]]:
+            t.append("sym-row-total-exceeds-counts-dtype")
+            if c["builder"] == "transpose" and c["eq"] and c["prior"] is None:
+                t.append("transpose-populations-row-total-exceeds:" + c["cdt"])
+        if max(sum(row) for row in M) > NARROW[c["cdt"]]:
+            t.append("row-total-exceeds-counts-dtype")
     if c.get("raw"):
         ent = c["raw"]["entries"]
         t += ["noncanon:%s:prior-%s" % (c["builder"], "none" if pk == "none" else "scalar" if "scalar" in c["prior"] else "matrix"),
@@ -982,7 +1034,11 @@ ESSENTIAL_TAGS = ["arpack-1000-states", "builder:normalize", "builder:transpose"
                   "dense-layouts(F,readonly,strided-view)", "prior-float-typed",
                   "noncanon:duplicates", "noncanon:stored-zero", "noncanon:one-entry-per-transition",
                   "noncanon:from-assigns_to_counts", "noncanon:int64", "noncanon:float64",
-                  "nearsym:symmetric-basins", "nearsym:integer-counts", "nearsym:dyadic-counts"] + \
+                  "nearsym:symmetric-basins", "nearsym:integer-counts", "nearsym:dyadic-counts",
+                  "sym-row-total-exceeds-counts-dtype", "row-total-exceeds-counts-dtype",
+                  "narrow-counts:transpose", "narrow-counts:normalize", "narrow-counts:mle"] + \
+                 ["counts-dtype:" + d for d in NARROW] + \
+                 ["transpose-populations-row-total-exceeds:" + d for d in ("uint8", "int16", "uint16", "int32")] + \
                  ["prior-zero:" + k for k in ("zero-int", "zero-float", "zeros-int", "zeros-float",
                                               "normalize", "transpose", "mle")] + \
                  ["noncanon:%s:prior-%s" % (b, k) for b in ("normalize", "transpose", "mle")
@@ -994,6 +1050,7 @@ def search(rng, tier):
     oracle saw nothing on this run's cases: fresh random cases plus the whole small scope."""
     found = []
     cases = [_gen_valid(rng, tier, raw=True) for _ in range(60)] + [_gen_nearsym(rng, tier) for _ in range(40)] + \
+        [_gen_narrow(rng, tier, dt, b) for dt in NARROW for b in ("transpose", "normalize")] + \
         _small_scope(rng, "thorough") + [_gen_valid(rng, tier) for _ in range(600)] + \
         [_gen_malformed(rng) for _ in range(60)]
     for c in cases:
